@@ -33,7 +33,7 @@ fn call(entry: u64, s: &str) -> (u64, Option<String>) {
     }
 }
 
-const SEEDS: [&str; 16] = [
+const SEEDS: [&str; 19] = [
     "rule \"R1\" salience 10 no-loop {\n  when\n    User.Age > 18 && (User.Country == \"US\" || User.IsVIP == true)\n  then\n    User.Adult = true;\n    Log(\"ok\");\n}",
     "defmodule SENSORS {\n  export: all\n}\nrule \"S\" agenda-group \"g\" { when X.a in [1, 2, 3] then X.b = X.a * 2 + 1; Retract(\"X\"); }",
     "rule R2 { when !(A.x == 1) && exists(B.y > 2) && forall(C.z < 3) then A.x = \"s;}\"; }",
@@ -50,7 +50,13 @@ const SEEDS: [&str; 16] = [
     "(manager(?x) OR senior(?x)) AND salary(?x) > 100",
     "parent(?x, ?y) WHERE person(?x) AND (child(?y) WHERE age(?y) < 18)",
     "Order.quantity * (Order.price + 2) - Ünit.a % 3 / \"str\"",
+    // string literals with escapes (a truncation right after a backslash, an escaped quote, an escaped backslash before the closing quote)
+    "User.Name == \"ab\\\"c\\\\\" && User.Note != 'it\\'s' || X.path == \"C:\\\\dir\\n\"",
+    "query \"E\" { goal: User.Name == \"a\\\"b\" on-success: { Log(\"x\\\\\"); } }",
+    // numbers at the limits of u64 / i64 / f64 wherever a number is expected
+    "e: Ev from stream(\"s\") over window(18446744073709551615 min, sliding)",
 ];
+const BIGNUM: [&str; 8] = ["18446744073709551615", "18446744073709551616", "9223372036854775807", "9223372036854775808", "-9223372036854775809", "307445734561825861", "5124095576030432", "1e309"];
 const TOKENS: [&str; 48] = ["rule", "when", "then", "salience", "no-loop", "defmodule", "import", "export", "query", "goal:", "strategy:", "on-success:",
     "from", "stream", "over", "window", "WHERE", "AND", "OR", "NOT", "exists", "forall", "accumulate", "test", "&&", "||", "!", "==", "!=", ">=", "<=", ">", "<",
     "(", ")", "{", "}", "[", "]", ";", ",", ":", "\"", "'", "$x", "?x", "1.5", "X.y"];
@@ -74,6 +80,14 @@ fn mutate(rng: &mut Rng, base: &str) -> String {
             4 => { v.remove(i); }
             5 => { for c in rng.pick(&TOKENS).chars() { v.insert(i, c); } }
             _ => { v[i] = *rng.pick(&['(', ')', '"', '{', '}', '!', ' ', '\n', '\\', '\0', '=', '.']); }
+        }
+        // now and then: replace one run of digits by a number at a limit
+        if rng.chance(1, 6) {
+            if let Some(a) = v.iter().position(|c| c.is_ascii_digit()) {
+                let b = a + v[a..].iter().take_while(|c| c.is_ascii_digit()).count();
+                let big: Vec<char> = rng.pick(&BIGNUM).chars().collect();
+                v.splice(a..b, big);
+            }
         }
         if v.len() > 3000 { v.truncate(3000); }
     }
@@ -114,6 +128,25 @@ pub fn gen(tier: Tier, rng: &mut Rng) -> Vec<Sx> {
             let i = rng.below(k as u64 + 1) as usize; b.insert(i, c); if rng.chance(1, 2) { b.insert(i, c); b.insert(i, c); }
             let (ta, tb): (String, String) = (a.into_iter().collect(), b.into_iter().collect());
             for e in 1..nent { v.push(mk(e, &ta)); v.push(mk(e, &tb)); }
+        }
+    }
+    // 4c. EVERY prefix of every seed (an input that stops anywhere: inside a string, right after a backslash, inside a
+    //     number, between a keyword and its argument): on all entry points in the thorough tier, on three per prefix otherwise;
+    //     and every seed with each of its digit runs replaced by each limit number
+    for s in SEEDS {
+        let cs: Vec<char> = s.chars().collect();
+        for k in 0..cs.len() {
+            let pre: String = cs[..k].iter().collect();
+            if tier == Tier::Thorough { for e in 1..nent { v.push(mk(e, &pre)); } }
+            else { for _ in 0..3 { v.push(mk(rng.range(1, nent - 1), &pre)); } }
+        }
+        let mut a = 0;
+        while a < cs.len() {
+            if cs[a].is_ascii_digit() {
+                let b = a + cs[a..].iter().take_while(|c| c.is_ascii_digit()).count();
+                for big in BIGNUM { let t: String = cs[..a].iter().chain(big.chars().collect::<Vec<char>>().iter()).chain(cs[b..].iter()).collect(); for e in 1..nent { v.push(mk(e, &t)); } }
+                a = b;
+            } else { a += 1; }
         }
     }
     // 5. deep prefix chains and nesting up to 4 KiB
